@@ -234,6 +234,63 @@ def build_shapes(trees: List[Tuple[str, ast.Module]]) -> Dict[str, Dict[str, Lis
     return table
 
 
+_IMMUTABLE = ("str", "decimal.Decimal", "int", "float", "bool", "datetime.datetime", "datetime.timedelta")
+
+
+def _immutable_type(t: Optional[str]) -> bool:
+    if not t:
+        return False
+    t = t.rstrip("?")
+    return t in _IMMUTABLE or t.startswith("Literal[")
+
+
+def build_augassign(root: str) -> Dict[str, List[str]]:
+    """Pinned `x op= e` statements whose target (or operand) mypy types as an immutable scalar: only for those is `x = x op e` the same
+    statement (a ValueMap or dict target is updated in place by `+=`, and rebinding it instead is a behaviour change)."""
+    from . import astutil as A, loader, mypyfacts
+    os.environ["SA_NO_INLINE"] = "1"
+    repo = loader.Repo(root)
+    del os.environ["SA_NO_INLINE"]
+    facts = mypyfacts.load(root, repo.digest, use_cache=True)
+    out: Dict[str, List[str]] = {}
+    for m in repo.modules.values():
+        for q, fn in _functions(m.tree, m.modname):
+            for n in _preorder(fn):
+                if isinstance(n, ast.AugAssign) and (_immutable_type(facts.types.get(A.fact_key(m, n.target)))
+                                                      or _immutable_type(facts.types.get(A.fact_key(m, n.value)))):
+                    out.setdefault(q, [])
+                    if ast.unparse(n) not in out[q]:
+                        out[q].append(ast.unparse(n))
+    return out
+
+
+def contract(tree: ast.Module, modname: str, table: Dict[str, Dict[str, List[str]]]) -> List[str]:
+    """In pinned functions, `x = x op e` is turned back into the pinned `x op= e` where the pinned statement works on an immutable
+    scalar (table built with mypy's types at pin time)."""
+    log: List[str] = []
+    done: Set[str] = set()
+    for q, fn in _functions(tree, modname):
+        pinned = set((table.get(q) or {}).get("augassign", []))
+        if not pinned or q in done:
+            continue
+        done.add(q)
+        for holder in list(_preorder(fn)):
+            for field in ("body", "orelse", "finalbody"):
+                stmts = getattr(holder, field, None)
+                if not isinstance(stmts, list):
+                    continue
+                for i, st in enumerate(stmts):
+                    if (isinstance(st, ast.Assign) and len(st.targets) == 1 and isinstance(st.value, ast.BinOp)
+                            and isinstance(st.targets[0], (ast.Name, ast.Attribute, ast.Subscript))
+                            and not any(isinstance(x, (ast.Call, ast.Await)) for x in _preorder(st.targets[0]))
+                            and ast.unparse(st.targets[0]) == ast.unparse(st.value.left)):
+                        new = ast.copy_location(ast.AugAssign(st.targets[0], st.value.op, st.value.right), st)
+                        if ast.unparse(new) in pinned:
+                            log.append(f"{q}: {ast.unparse(st)} -> {ast.unparse(new)}")
+                            stmts[i] = new
+    return log
+
+
 def load_shapes() -> Optional[Dict[str, Dict[str, List[str]]]]:
     if not os.path.exists(SHAPES):
         return None
@@ -286,6 +343,8 @@ if __name__ == "__main__":
         json.dump(t, f, indent=0, sort_keys=True)
     print(len(t), "functions,", sum(len(v) for v in t.values()), "locals")
     sh = build_shapes(trees)
+    for q, lst in build_augassign(root).items():
+        sh.setdefault(q, {"compare": [], "if_else": []})["augassign"] = lst
     with open(SHAPES, "w") as f:
         json.dump(sh, f, indent=0, sort_keys=True)
     print(len(sh), "functions with comparisons / if-else")
